@@ -230,6 +230,17 @@ impl<'a> Evaluator<'a> {
                             }),
                         }
                     }
+                    // (a number and a string: no later pass will make that work)
+                    (Some(SymbolData::Number(_)), Some(SymbolData::String(_)))
+                    | (Some(SymbolData::String(_)), Some(SymbolData::Number(_))) => {
+                        Err(EvaluationError {
+                            span: bin.op.span,
+                            message: format!(
+                                "cannot apply operation '{}' on a number and a string",
+                                bin.op.data
+                            ),
+                        })
+                    }
                     _ => Ok(None),
                 }
             }
@@ -261,19 +272,23 @@ impl<'a> Evaluator<'a> {
             ExpressionFactor::IdentifierValue { path, modifier } => {
                 let symbol_data = self.lookup_symbol(path, track_usage);
 
-                Ok(symbol_data.and_then(|data| match data {
-                    SymbolData::MacroDefinition(_) => None,
-                    SymbolData::Number(val) => {
+                match symbol_data {
+                    // (a macro has no value: that is not something a later pass can change)
+                    Some(SymbolData::MacroDefinition(_)) => self.error(
+                        path.span,
+                        format!("'{}' is a macro and cannot be used as a value", path.data),
+                    ),
+                    Some(SymbolData::Number(val)) => {
                         let result = match modifier.as_ref().map(|m| &m.data) {
                             Some(AddressModifier::LowByte) => val & 255,
                             Some(AddressModifier::HighByte) => (val >> 8) & 255,
                             _ => *val,
                         };
-                        Some(SymbolData::Number(result))
+                        Ok(Some(SymbolData::Number(result)))
                     }
-                    SymbolData::String(q) => Some(SymbolData::String(q.clone())),
-                    SymbolData::Placeholder => None,
-                }))
+                    Some(SymbolData::String(q)) => Ok(Some(SymbolData::String(q.clone()))),
+                    Some(SymbolData::Placeholder) | None => Ok(None),
+                }
             }
             ExpressionFactor::Number { value: number, .. } => match number.data.try_value() {
                 Some(value) => Ok(Some(value.into())),
